@@ -619,6 +619,188 @@ def rule_D(ck, units):
                     ck.ob('D.gather-counts', key, f.where(c), ok, '' if ok else '%s sends %s element(s) per rank but the receive count per rank is `%s`: the root writes beyond its receive buffer' % (c['f'], sc, rc_))
 
 
+def rule_G(ck, units):
+    """G.keep-src-honoured: distributed_matrix::move_to_backend(bprm, keep_src): on every path with keep_src == true the source matrices
+    a_loc / a_rem are neither modified (element writes, callees that write through a pointer into them, e.g. comm_pattern::renumber on
+    a_rem->col) nor released.  The transfer operators P, R of a level are moved with keep_src and reused by the next coarsening step."""
+    from effects import locate
+    from accesses import Analyzer
+    ck.rule('G.keep-src-honoured', 'move_to_backend(bprm, keep_src): every modification or release of the source matrices a_loc / a_rem (element write, callee writing through a pointer '
+                                   'into them, reset) is executed only on paths where keep_src is false (exact path condition on the unmodified parameter)', 3)
+    for u in units.values():
+        an = Analyzer([u])
+        done = set()
+        for f in u.funcs:
+            if f.q != 'amgcl::mpi::distributed_matrix::move_to_backend' or f.cfg is None or len(f.params) != 2 or f.cls in done:
+                continue
+            done.add(f.cls)
+            ks = f.params[1]
+            if f.decl(ks).get('n') != 'keep_src':
+                ck.brk('move_to_backend: second parameter is not keep_src')
+                continue
+            if any(n['k'] == 'bin' and n['op'] in ('=', '|=', '&=', '^=') and unwrap(n['x'])['k'] == 'ref' and unwrap(n['x'])['d'] == ks for n in f.nodes.values()):
+                ck.brk('move_to_backend: keep_src is assigned')
+                continue
+            loc = locate(f)
+            SRC = ('a_loc', 'a_rem')
+
+            def src_of(e):
+                ap = ir.access_path(e)
+                if ap is not None and ap[0] == 'this' and ap[2] and ap[2][0] in SRC:
+                    return ap[2]
+                return None
+            events = []
+            for n in f.nodes.values():
+                if n['i'] not in loc:
+                    continue
+                if n['k'] == 'call':
+                    obj = n.get('obj')
+                    if obj is not None and n.get('m') in ('reset', 'swap') and src_of(obj) is not None and len(src_of(obj)) == 1:
+                        events.append((n, '%s is released (%s)' % (src_of(obj)[0], show(n))))
+                        continue
+                    g = u.by_id.get(n.get('fd')) if 'fd' in n else None
+                    for i, a in enumerate(n.get('a', [])):
+                        sp = src_of(a)
+                        if sp is None or len(sp) < 2:
+                            continue             # the shared_ptr itself handed on (copy_matrix(a_rem, ...)) is not a write
+                        eff = an.param_effect(g, i) if g is not None and g.cfg is not None and i < len(g.params) else 'rw'
+                        pd = g.decl(g.params[i]) if g is not None and i < len(g.params) else None
+                        if pd is not None and pd.get('const') and not pd.get('ptr'):
+                            eff = 'read'
+                        if eff not in ('read', 'neutral'):
+                            events.append((n, '%s is written by %s through argument %d (%s)' % ('->'.join(sp), (n.get('f') or n.get('m') or '?').split('::')[-1], i, show(a))))
+                elif n['k'] == 'bin' and n['op'] in ('=', '+=', '-=', '*=', '/='):
+                    sp = src_of(n['x'])
+                    if sp is not None and (len(sp) >= 2 or n['op'] == '='):
+                        events.append((n, '%s is assigned (%s)' % ('->'.join(sp), show(n)[:50])))
+
+            def edge(b, k, s_, st):
+                c = f.cfg.cond(b)
+                if c is None:
+                    return st
+                cu = unwrap(c)
+                neg = False
+                while cu is not None and cu['k'] == 'un' and cu['op'] == '!':
+                    neg = not neg
+                    cu = unwrap(cu['e'])
+                if cu is not None and cu['k'] == 'ref' and cu['d'] == ks:
+                    val = (k == 0) != neg
+                    st = st & frozenset([val])
+                    return st if st else None
+                return st
+            IN, OUT = f.cfg.forward(frozenset([True, False]), lambda b, st: st, edge=edge, join=lambda a, b_: a | b_)
+            for n, what in events:
+                b = loc[n['i']][0]
+                st = IN.get(b)
+                if st is None:
+                    continue
+                ok = True not in st
+                ck.ob('G.keep-src-honoured', 'distributed_matrix::move_to_backend|%s' % what.split(' (')[0], f.where(n), ok,
+                      '' if ok else '%s at %s on a path where keep_src is true: the caller keeps using the source matrix' % (what, f.where(n)))
+
+
+def _poly(f, e, depth=0):
+    """integer expression -> polynomial {monomial (sorted tuple of symbols): coefficient}; single-definition locals are inlined, anything
+    that is not + - * of such terms is an opaque symbol named by its text"""
+    e = unwrap(e)
+    while e is not None and e['k'] == 'cast':
+        e = unwrap(e['e'])
+    if e is None:
+        return None
+    if e['k'] == 'lit' and e.get('t') == 'int':
+        v = int(e['v'])
+        return {(): v} if v else {}
+    if e['k'] == 'bin' and e['op'] in ('+', '-'):
+        a, b = _poly(f, e['x'], depth + 1), _poly(f, e['y'], depth + 1)
+        if a is None or b is None:
+            return None
+        out = dict(a)
+        for m, c in b.items():
+            out[m] = out.get(m, 0) + (c if e['op'] == '+' else -c)
+        return {m: c for m, c in out.items() if c}
+    if e['k'] == 'bin' and e['op'] == '*':
+        a, b = _poly(f, e['x'], depth + 1), _poly(f, e['y'], depth + 1)
+        if a is None or b is None:
+            return None
+        out = {}
+        for m1, c1 in a.items():
+            for m2, c2 in b.items():
+                m = tuple(sorted(m1 + m2))
+                out[m] = out.get(m, 0) + c1 * c2
+        return {m: c for m, c in out.items() if c}
+    if e['k'] == 'ref' and depth < 8 and f.decl(e['d']).get('k') == 'local':
+        d = e['d']
+        inits = [v['init'] for n in f.nodes.values() if n['k'] == 'decl' for v in n['v'] if v['d'] == d and v.get('init') is not None]
+        mods = [n for n in f.nodes.values() if (n['k'] == 'bin' and n['op'] in ('=', '+=', '-=', '*=', '/=') and unwrap(n['x'])['k'] == 'ref' and unwrap(n['x'])['d'] == d)
+                or (n['k'] == 'un' and n['op'] in ('++', '--') and unwrap(n['e'])['k'] == 'ref' and unwrap(n['e'])['d'] == d)]
+        if len(inits) == 1 and not mods:
+            p = _poly(f, inits[0], depth + 1)
+            if p is not None:
+                return p
+    return {(show(e),): 1}
+
+
+def _cofactor(p, s_):
+    out = {}
+    for m, c in p.items():
+        if s_ in m:
+            r = list(m)
+            r.remove(s_)
+            out[tuple(r)] = out.get(tuple(r), 0) + c
+    return out
+
+
+def rule_H(ck, units, floor=12):
+    """H.message-extent: a point-to-point message MPI_Isend / MPI_Irecv(&B[off], cnt, ...) that transfers the slice described by an offset
+    table ( cnt = k (T[hi] - T[lo]) ) starts at the matching position of the buffer ( off = k T[lo] + const ): for every table element
+    that occurs in both the offset and the count, its cofactor in the offset is minus its cofactor in the count."""
+    ck.rule('H.message-extent', 'MPI_Isend / MPI_Irecv(&B[off], cnt, ...): for every symbol occurring both in off and cnt the cofactor in off is the negated cofactor in cnt '
+                                '(a slice [k T[i], k T[i+1]) is sent from / received into its own position; polynomial normal forms, single-definition locals inlined)', floor)
+    seen = set()
+    for u in units.values():
+        for f in u.funcs:
+            if f.body is None or not f.rel().startswith('amgcl/mpi') or (f.file, f.line) in seen:
+                continue
+            calls = [n for n in f.nodes.values() if n['k'] == 'call' and n.get('f') in ('MPI_Isend', 'MPI_Irecv') and len(n.get('a', [])) >= 2]
+            if not calls:
+                continue
+            seen.add((f.file, f.line))
+            k = 0
+            for c in sorted(calls, key=lambda n: n['i']):
+                buf = unwrap(c['a'][0])
+                while buf is not None and buf['k'] == 'call' and buf.get('a') and len(buf['a']) == 1 and 'cast' in (buf.get('f') or ''):
+                    buf = unwrap(buf['a'][0])
+                off = None
+                if buf is not None and buf['k'] == 'un' and buf['op'] == '&':
+                    x = unwrap(buf['e'])
+                    if x is not None and x['k'] == 'idx':
+                        off = x['x']
+                    elif x is not None and x['k'] in ('call', 'opcall') and x.get('a') and (x.get('m') == 'operator[]' or x.get('op') == '[]'):
+                        off = x['a'][-1]
+                elif buf is not None and buf['k'] == 'bin' and buf['op'] == '+':
+                    off = buf['y']
+                if off is None:
+                    continue
+                po, pc = _poly(f, off), _poly(f, c['a'][1])
+                if po is None or pc is None:
+                    continue
+                syms = {s_ for m in po for s_ in m} & {s_ for m in pc for s_ in m}
+                # only table elements / running offsets, not pure scale factors: a symbol that multiplies every monomial of both is a scale
+                syms = {s_ for s_ in syms if not (all(s_ in m for m in po if m) and all(s_ in m for m in pc if m))}
+                if not syms:
+                    continue
+                k += 1
+                bad = []
+                for s_ in sorted(syms):
+                    co, cc = _cofactor(po, s_), _cofactor(pc, s_)
+                    if co != {m: -v for m, v in cc.items()}:
+                        bad.append(s_)
+                key = '%s|%s#%d' % ('::'.join(f.q.split('::')[-2:]), c['f'], k)
+                ck.ob('H.message-extent', key, f.where(c), not bad, '' if not bad else
+                      '%s at %s: buffer offset `%s` and count `%s` disagree on the scale of `%s` - the slice is not taken at its own position' % (
+                          c['f'], f.where(c), show(off), show(c['a'][1]), bad[0]))
+
+
 def main(tier):
     ck = Check('C11', tier, 'C11 (clauses): collective scalars are rank-consistent, ghost values are used after the exchange completed, requests are completed.')
     T = os.path.join(ir.VERIF, 'tus')
@@ -631,6 +813,10 @@ def main(tier):
     rule_D(ck, units)
     rule_E(ck, units)
     rule_F(ck, units)
+    rule_G(ck, units)
+    rule_H(ck, units)
+    import c12
+    c12.rule_E(ck, units, floor=3)   # row sums cover the ghost columns (spectral radius, spai0; shared with C12)
     ck.assumptions += ['MPI_Allreduce / MPI_Allgather deliver the same result on all ranks', 'configuration parameters (prm.*, scalar arguments such as power_iters) are equal on all ranks',
                        'equality with the serial kernels for all partitions and the correctness of transpose / product are not decided']
     return ck.finish()
